@@ -219,7 +219,7 @@ def check(ctx):
             c = S.Cfg()
             r = rng.random()
             if r < 0.7:
-                c.qcut = rng.choice(["10", "20", "15,10", "5,0", "0,12", "30"])
+                c.qcut = rng.choice(["10", "20", "15,10", "5,0", "12,0", "0,12", "30"])
             if r > 0.4:
                 c.nextseq = rng.choice([5, 10, 20, 30])
             if rng.random() < 0.3:
@@ -235,6 +235,17 @@ def check(ctx):
             before = sum(len(s) for _, s, _ in cut_only["files"].get(0, []))
             after = sum(len(s) for _, s, _ in res["files"].get(0, []))
             rep = res["report"]["basepair_counts"]["quality_trimmed"] or 0
+            if c.qcut is not None and c.nextseq is None:
+                # -q alone at the command line: every output read is the slice the BWA rule gives for the read that -u left
+                parts = [int(x) for x in c.qcut.split(",")]
+                cf, cb = (0, parts[0]) if len(parts) == 1 else parts
+                for (nm, sq, ql), (_, sq0, ql0) in zip(res["files"].get(0, []), cut_only["files"].get(0, [])):
+                    a, b = spec_index([ord(x) - c.qbase for x in ql0], cf, cb)
+                    if sq != sq0[a:b] or ql != ql0[a:b]:
+                        ctx.violation("system: -q at the command line does not trim as the BWA rule says",
+                                      {"case": ["system", res["argv"][5:-1]], "reads": [list(x) for x in reads], "observed": [nm, sq, ql], "expected": [sq0[a:b], ql0[a:b]],
+                                       "why": "read %s: -q %s gives %r, the rule gives %r" % (nm, c.qcut, sq, sq0[a:b])})
+                        break
             if rep != before - after:
                 ctx.violation("system: reported quality-trimmed bases differ from the bases removed",
                               {"case": ["system", res["argv"][5:-1]], "reads": [list(x) for x in reads], "observed": rep, "expected": before - after,
